@@ -26,6 +26,9 @@ pub trait Hooks: Send + Sync {
     fn yield_point(&self, _name: &'static str) {}
     /// Impose an order on the keys a snapshot is about to write.
     fn order_keys(&self, _keys: &mut Vec<(String, Value)>) {}
+    /// Impose an order on the directory entries start-up is about to load (read_dir order is
+    /// up to the file system).
+    fn order_dir_entries(&self, _entries: &mut Vec<std::io::Result<std::fs::DirEntry>>) {}
     /// Called before a shim RwLock is acquired; may block until a scheduler grants it.
     fn lock_acquire(&self, _lock: usize, _site: &'static Location<'static>, _write: bool) {}
     fn lock_release(&self, _lock: usize, _write: bool) {}
@@ -84,6 +87,15 @@ pub fn order_keys(keys: &mut Vec<(String, Value)>) {
     if let Some(h) = current() {
         h.order_keys(keys)
     }
+}
+
+pub fn order_dir_entries(
+    mut entries: Vec<std::io::Result<std::fs::DirEntry>>,
+) -> Vec<std::io::Result<std::fs::DirEntry>> {
+    if let Some(h) = current() {
+        h.order_dir_entries(&mut entries)
+    }
+    entries
 }
 
 pub fn event(name: &'static str, detail: &str) {
